@@ -157,7 +157,8 @@ def _case(draw):
     which = draw(st.sampled_from(["view", "view", "view", "view", "map", "hist", "hist"]))
     if which == "map":
         kind = draw(st.sampled_from(["Table", "Tree"]))
-        ks = draw(st.one_of(st.lists(st.integers(-30, 30), max_size=12, unique=True),
+        ks = draw(st.one_of(st.lists(st.integers(0, 12), min_size=1, max_size=2, unique=True),      # one or two keys: every slot of the smallest table
+                            st.lists(st.integers(-30, 30), max_size=12, unique=True),
                             st.lists(st.one_of(st.integers(-100, 100), st.sampled_from([2**31, 2**32, -2**31, 2**40, 997, 1994])), min_size=13, max_size=70, unique=True)))
         return {"fam": "map", "kind": kind, "keys": ks, "rem": draw(st.lists(st.integers(0, 69), max_size=20)),
                 "hist": draw(st.sampled_from(["plain", "plain", "clear-refill", "set-twice"])), "partial": draw(_partial())}
@@ -806,7 +807,23 @@ def extra_phase(ctx, tier, stats, sample_fn):
     for (lo, hi, e) in cases[::40]:
         stats.add({"fam": "view", "e": e}, Result(None, nontrivial(e), ["small-scope-range"]), sample_fn)
     stats.evals += nr - len(cases[::40])
-    return {"fails": fails, "extra": {"small_scope_slices": n, "small_scope_ranges": nr, "small_scope_exhaustive": True}}
+    # every Table / Tree holding one key of 0..12 or two keys of 0..6 (each slot of the smallest table alone and in
+    # pairs, both insertion orders), also after a removal that leaves one key: walked directly in both directions
+    nm = 0
+    small = [[a] for a in range(13)] + [[a, b] for a in range(7) for b in range(7) if a != b]
+    for kind in ("Table", "Tree"):
+        for ks in small:
+            for rem in ([], [0]) if len(ks) == 2 else ([],):
+                case = {"fam": "map", "kind": kind, "keys": ks, "rem": rem, "hist": "plain", "partial": None}
+                res = _orig_run_case(ctx, case)
+                nm += 1
+                if res.fail:
+                    fails.append((case, res.fail))
+                if nm % 9 == 0:
+                    stats.add(case, Result(None, True, ["small-scope-map"]), sample_fn)
+                else:
+                    stats.evals += 1
+    return {"fails": fails, "extra": {"small_scope_slices": n, "small_scope_ranges": nr, "small_scope_maps": nm, "small_scope_exhaustive": True}}
 
 
 # Known finding: a Tuple holding the same pointer twice never terminates (cursor found by pointer identity).
